@@ -238,6 +238,9 @@ func (c *Config) cert(hostname string) (*tls.Certificate, error) {
 	host, _, err := net.SplitHostPort(hostname)
 	if err == nil {
 		hostname = host
+	} else if n := len(hostname); n > 2 && hostname[0] == '[' && hostname[n-1] == ']' {
+		// Bracketed IPv6 literal without a port, e.g. "[::1]".
+		hostname = hostname[1 : n-1]
 	}
 
 	// Without a name there is nothing to issue a certificate for: refuse the
